@@ -203,6 +203,11 @@ def _run_derived(p):
     return guarded(f)
 
 
+def _other_dtype(dt):
+    """an element type other than the array's own to which numpy converts every cell in a defined way"""
+    return np.dtype(np.float32) if dt == np.float64 else np.dtype(np.int64) if dt == np.bool_ else np.dtype(np.float64)
+
+
 def run_impl(p):
     from npstructures import RunLengthArray
     if "derived" in p:
@@ -216,6 +221,14 @@ def run_impl(p):
         z = (lambda x: np.where(x == 0, np.zeros(1, dtype=x.dtype)[0], x)) if p.get("zeros") else (lambda x: x)
         o["to_array"] = guarded(lambda: z(r.to_array()))
         o["asarray"] = guarded(lambda: z(np.asarray(r)))
+        # numpy's array conversion WITH an element type: the decoded cells, converted (np.asarray(r, dtype=...) / np.array(r, dtype=...))
+        odt = _other_dtype(arr.dtype)
+        def conv():
+            with np.errstate(all="ignore"), warnings.catch_warnings():
+                warnings.simplefilter("ignore")
+                r3 = RunLengthArray.from_array(arr.copy())
+                return z(np.asarray(r3, dtype=odt) if len(arr) % 2 else np.array(r3, dtype=odt))
+        o["asarray_as"] = guarded(conv)
         o["len"] = guarded(lambda: int(len(r)))
         o["size"] = guarded(lambda: int(r.size))
         o["ndim"] = guarded(lambda: int(r.ndim))
@@ -290,6 +303,9 @@ def oracle(p):
     if p.get("zeros"):
         arr = np.where(arr == 0, np.zeros(1, dtype=arr.dtype)[0], arr)
     o["to_array"] = canon(arr); o["asarray"] = canon(arr)
+    with np.errstate(all="ignore"), warnings.catch_warnings():
+        warnings.simplefilter("ignore")
+        o["asarray_as"] = canon(arr.astype(_other_dtype(arr.dtype)))
     o["len"] = canon(n); o["size"] = canon(n); o["shape"] = canon([n]); o["ndim"] = canon(1)
     o["dtype"] = {"k": "other", "v": repr(str(arr.dtype))}
     o["starts"] = canon(bounds[:-1]); o["ends"] = canon(bounds[1:])
